@@ -44,10 +44,13 @@ def run(chk, tier):
     chk.assumptions += ["user-supplied type_info() functions are deterministic"]
 
 
+POINT_OPS = {"entry", "get", "insert", "contains_key", "get_key_value", "len", "is_empty"}
+ORDER_OPS = {"iter", "iter_mut", "keys", "values", "values_mut", "range", "range_mut", "first_key_value", "last_key_value", "first_entry", "last_entry",
+             "pop_first", "pop_last", "into_iter", "into_keys", "into_values", "retain", "extract_if", "split_off", "append", "drain"}
+
+
 def point_ops(chk, prog, cfg):
-    allowed = {("scale_info::interner::Interner::intern_or_get", "alloc::collections::btree::map::BTreeMap::entry"),
-               ("scale_info::interner::Interner::get", "alloc::collections::btree::map::BTreeMap::get")}
-    seen = set()
+    seen = 0
     for (b, bb, callee, ai, m) in who.field_reads_via_calls(prog, cr.INT, "map"):
         owner = mir.strip_generics(b.path)
         fn = prog.fns.get(b.path, {})
@@ -55,12 +58,17 @@ def point_ops(chk, prog, cfg):
         if imp is not None and imp["automatically_derived"]:
             chk.count("derived-uses-of-map")
             continue
-        key = (owner, callee)
-        seen.add(key)
-        chk.expect(key in allowed, "R11.3", "map-use:%s:%s" % (owner.split("::")[-1], callee.split("::")[-1]), b.where(bb),
-                   "Interner.map passed to %s in %s" % (callee, owner), cfg)
-    for a in allowed - seen:
-        chk.fail("R11.3", "map-use:%s:%s" % (a[0].split("::")[-1], a[1].split("::")[-1]), None, "expected point operation not found", cfg, kind="MISSING-ANCHOR")
+        op = callee.split("::")[-1]
+        key = "map-use:%s:%s" % (owner.split("::")[-1], op)
+        if "btree::map::BTreeMap" in callee and op in POINT_OPS:
+            seen += 1
+            chk.ok("R11.3", key, b.where(bb), "point operation %s" % callee, cfg)
+        elif op in ORDER_OPS:
+            chk.fail("R11.3", key, b.where(bb), "Interner.map (keyed by TypeId in the registry) is traversed in key order by %s in %s: "
+                     "TypeId order is not stable across compilations, so anything derived from it is not reproducible" % (callee, owner), cfg)
+        else:
+            chk.unrecognised("R11.3", key, b.where(bb), "Interner.map passed to %s in %s" % (callee, owner), cfg)
+    chk.floor("R11.3", seen, 2, "point operations on Interner.map: the lookup/insert in intern_or_get and the lookup in get")
     # the interner's map never flows out by value/iterator: no fn returns a type mentioning btree_map iterators over T keys
     for f in prog.fn_list:
         if f["kind"] == "AssocFn" and f.get("impl_self_ty") is not None:
